@@ -878,8 +878,8 @@ fn enumerate_jobs(thorough: bool) -> Vec<Job> {
         }
     }
     // every probability assignment over the value set
-    // (thorough: every DNF; quick: the irredundant ones)
-    let allprob_forms: Vec<Fm> = dnf3m.iter().filter(|m| thorough || is_antichain(m)).map(|m| dnf(m)).collect();
+    // (thorough: every DNF; quick: the irredundant ones with >= 2 clauses)
+    let allprob_forms: Vec<Fm> = dnf3m.iter().filter(|m| thorough || (m.len() >= 2 && is_antichain(m))).map(|m| dnf(m)).collect();
     for f in &allprob_forms {
         for p in all_prob_vectors(3) {
             push("dnf_allprobs", f, 3, p, false, None, Cfgs::Tiny, false);
